@@ -742,6 +742,11 @@ func (lcp *LCPStateMachine) receiveEchoRequest(pkt *LCPPacket) error {
 		return nil
 	}
 
+	// An Echo-Request carries at least the 4-byte Magic-Number (RFC 1661 5.8)
+	if len(pkt.Data) < 4 {
+		return nil
+	}
+
 	// Build Echo-Reply with our magic number
 	replyData := make([]byte, 4+len(pkt.Data)-4)
 	binary.BigEndian.PutUint32(replyData[:4], lcp.config.MagicNumber)
